@@ -9,4 +9,4 @@ REPO="${VERIF_REPO:-/repo}"
 /venv/bin/python ../translator/py2gallina.py "$REPO" theories/Gen || exit 3
 { cat _CoqProject.in; find theories -name '*.v' | sort; } > _CoqProject
 coq_makefile -f _CoqProject -o Makefile >/dev/null || exit 4
-timeout 1500 make -k -j16 "$@"
+timeout 900 make -k -j16 "$@"
